@@ -47,9 +47,9 @@ def lean_type(t) -> str:
             return " × ".join(lean_type_atom(x) for x in t[1])
         if t[0] == "dict":
             return f"List (String × {lean_type_atom(t[1])})"
-    return {"int": "Int", "nat": "Nat", "bool": "Bool", "dir": "Dir", "mode": "Mode", "agent": "Agent", "num": "Num", "R": "R",
+    return {"int": "Int", "nat": "Nat", "bool": "Bool", "dir": "Dir", "mode": "Mode", "agent": "Agent", "num": "Num", "R": "R", "rho": "ρ",
             "coords": "List Coord", "es": "ES R", "unit": "Unit", "gen": "List Agent", "cfg": "StopCfg R", "book": "Book R",
-            "A": "α", "str": "String", "task": "τ", "self": "Self R σ τ", "objval": "ObjVal", "raws": "List Raw", "tasksem": "TaskSem", "vd": "VarDecl", "var": "Var", "vdget": "VarGet", "raw": "Raw", "coord": "Coord", "bentry": "BEntry", "decoded": "TaskDecl.Decoded", "darg": "TaskDecl.DArg", "mmode": "Multi.Mode"}[t]
+            "A": "α", "str": "String", "task": "τ", "self": "Self R σ τ", "objval": "ObjVal", "raws": "List Raw", "tasksem": "TaskSem", "vd": "VarDecl", "var": "Var", "vdget": "VarGet", "raw": "Raw", "coord": "Coord", "bentry": "BEntry", "decoded": "TaskDecl.Decoded", "darg": "TaskDecl.DArg", "mmode": "Multi.Mode", "mobj": "Multi.Obj", "mcell": "Multi.RunDict ρ", "poolsize": "Unit"}[t]
 
 
 def lean_type_atom(t) -> str:
@@ -65,6 +65,7 @@ class Untranslatable(Exception):
 
 # attribute access on typed values: (type, attr) -> (lean term template, type)
 ATTRS = {
+    ("mobj", "name"): ("{0}.name", "str"),
     ("agent", "cost"): ("{0}.cost", "num"),
     ("agent", "position"): ("{0}.position", "coords"),
     ("agent", "fitness"): ("{0}.fitness", "num"),
@@ -164,6 +165,17 @@ SPEC = [
     dict(name="fcn", src=("abstract.py", "OptimizationAbstract._fcn"), params={"x": "coords"}, ret="objval", selfr={"_task": ("T", "tasksem")}),
     dict(name="init_agent", src=("abstract.py", "OptimizationAbstract._init_agent"), params={"position": O("raws")}, ret="agent", selfr={"_task": ("T", "tasksem")},
          extra=[("empty_solution", "List Raw"), ("calculate_fitness", "Num → Dir → Num")]),
+    dict(name="multitask_debug_results", src=("multitask.py", "Multitask.__debug_results__"), params={"result": "mcell", "optimizer_name": "str"}, ret="unit",
+         selfr={"_debug": ("self_debug", "bool")}, multitask=True, rho=True),
+    dict(name="multitask_run", src=("multitask.py", "Multitask.__run__"), params={"id_trial": "int", "optimizer": "mobj", "task": "mobj", "mode": "mmode"}, ret="mcell",
+         selfr={"_n_workers": ("n_workers", O("int"))}, multitask=True, rho=True, optimize_ctx=["id_trial"]),
+    dict(name="multitask_parallelize", src=("multitask.py", "Multitask.__parallelize__"),
+         params={"optimizer": "mobj", "task": "mobj", "mode": "mmode", "n_cpus": "poolsize", "trial_list": L("int")}, ret=L("mcell"),
+         selfr={"_debug": ("self_debug", "bool"), "_n_workers": ("n_workers", O("int"))}, multitask=True, rho=True, optimize_ctx=[], locals={"best_fit_trials": L("mcell")}),
+    dict(name="multitask_execute", src=("multitask.py", "Multitask.execute"), params={"n_trials": "int", "n_jobs": "int", "debug": "bool"}, ret="unit",
+         selfr={"_algorithms": ("algorithms", L("mobj")), "_tasks": ("tasks", L("mobj")), "_modes": ("modes", O(L(L("str")))), "_n_workers": ("n_workers", O("int"))},
+         selfw={"_debug": ("self_debug", "bool"), "_df2": ("self_df2", L(("dict", L("mcell"))))}, multitask=True, rho=True, optimize_ctx=[],
+         locals={"best_fit_optimizer_results": ("dict", L("mcell"))}),
     dict(name="generate_agents", src=("abstract.py", "OptimizationAbstract._generate_agents"), params={"n_agents": "int"}, ret=L("agent"), pool=True, draws=True,
          selfr={"_mode": ("self_mode", "mode"), "_workers": ("self_workers", "int"), "_task": ("T", "tasksem")},
          extra=[("calculate_fitness", "Num → Dir → Num")]),
@@ -354,9 +366,25 @@ class Fn:
             # a name / message string: not modelled, but it must not do anything
             if any(isinstance(x, (ast.Call, ast.NamedExpr, ast.Await, ast.Yield)) for x in ast.walk(n)):
                 self.err(n, "f-string with a call inside")
+            if self.spec.get("multitask"):
+                # the string itself matters (a dictionary key): literal parts and string-valued fields, concatenated
+                parts = []
+                for v in n.values:
+                    if isinstance(v, ast.Constant) and isinstance(v.value, str):
+                        parts.append(json.dumps(v.value))
+                    elif isinstance(v, ast.FormattedValue) and v.conversion == -1 and v.format_spec is None:
+                        t, ty = self.E(v.value, env)
+                        if ty != "str":
+                            self.err(n, f"f-string field of type {ty}")
+                        parts.append(t)
+                    else:
+                        self.err(n, "f-string field with a conversion or a format")
+                return "(" + " ++ ".join(parts or ['""']) + ")", "str"
             return '""', "str"
         if isinstance(n, ast.Name):
             if n.id in env:
+                if isinstance(env[n.id][1], tuple) and env[n.id][1][0] == "iter":
+                    return self.use_iter(n, env)
                 return env[n.id]
             self.err(n, f"unknown name {n.id}")
         if isinstance(n, ast.Attribute):
@@ -427,6 +455,13 @@ class Fn:
                 if kty != "str":
                     self.err(n, f"dict key of type {kty}")
                 return f"[({k}, {v})]", ("dict", vty)
+            if self.spec.get("rho") and [getattr(k, "value", None) for k in n.keys] == ["id_trial", "solution", "problem_name"]:
+                it, ity = self.E(n.values[0], env)
+                st, sty = self.E(n.values[1], env)
+                pt, pty = self.E(n.values[2], env)
+                if (ity, sty, pty) != ("int", "rho", "str"):
+                    self.err(n, f"result dict of a {ity}, a {sty} and a {pty}")
+                return f"({{ id_trial := {it}, solution := {st}, problem_name := {pt} }} : Multi.RunDict ρ)", "mcell"
             self.err(n, "dict literal with several entries")
         if isinstance(n, ast.UnaryOp):
             v, ty = self.E(n.operand, env)
@@ -684,6 +719,18 @@ class Fn:
             return f"(← Py.getNat {atom(base)} {atom(t)})", bty[1]
         return f"(← Py.getItem {atom(base)} {atom(t)})", bty[1]
 
+    def use_iter(self, n, env):
+        """a read of a one-shot iterator (`executor.map(...)`): the translation treats it as the list of its results, which is only sound if the
+        source consumes it exactly once, and not inside a loop or comprehension that could run the consuming statement again"""
+        if not hasattr(self, "iters_used"):
+            self.iters_used = {}
+        if n.id in self.iters_used:
+            self.err(n, f"the one-shot iterator {n.id} is consumed a second time (line {self.iters_used[n.id]} exhausted it)")
+        if self.in_lambda or getattr(self, "loop_depth", 0) > 0:
+            self.err(n, f"the one-shot iterator {n.id} is consumed inside a loop or comprehension")
+        self.iters_used[n.id] = getattr(n, "lineno", 0)
+        return env[n.id][0], L(env[n.id][1][1])
+
     def need_eff(self, node):
         if not self.eff:
             self.err(node, "internal: effect in a function inferred pure")
@@ -795,6 +842,13 @@ class Fn:
                 return f"(ObjVal.isList {env[n.args[0].id][0]})", "bool"
             if name == "deepcopy" and len(n.args) == 1 and not n.keywords:
                 return self.E(n.args[0], env)  # values have no identity
+            if name == "str" and len(n.args) == 1 and not n.keywords and self.spec.get("multitask"):
+                t, ty = self.E(n.args[0], env)
+                if ty == "mmode":
+                    return f"(Multi.Mode.toString {atom(t)})", "str"     # enums.Enum.__str__ returns the value
+                if ty == "str":
+                    return t, "str"
+                self.err(n, f"str() of a {ty}")
             if name == "list" and len(n.args) == 1 and not n.keywords:
                 t, ty = self.E(n.args[0], env)
                 if isinstance(ty, tuple) and ty[0] == "list":
@@ -995,6 +1049,54 @@ class Fn:
                     if not (kw.arg == "axis" and isinstance(kw.value, ast.Constant) and kw.value.value == 0):
                         self.err(n, f"np.argsort keyword {kw.arg}")
                 return f"(Py.npArgsort {atom(t)})", L("nat")
+            if self.spec.get("rho"):
+                # the size of the pool of trial processes: a scheduling parameter (how many trials run at once), no value depends on it
+                if ast.unparse(f) == "np.clip" and len(n.args) == 3 and [kw.arg for kw in n.keywords] == ["dtype"] and ast.unparse(n.args[2]).startswith("os.cpu_count()"):
+                    self.E(n.args[0], env)
+                    return "()", "poolsize"
+                # `pd.DataFrame(d)` of a dict of equally long columns: the table is that dict
+                if ast.unparse(f) == "pd.DataFrame" and len(n.args) == 1 and not n.keywords:
+                    t, ty = self.E(n.args[0], env)
+                    if not (isinstance(ty, tuple) and ty[0] == "dict"):
+                        self.err(n, f"pd.DataFrame of a {ty}")
+                    return t, ty
+                # `executor.map(partial(self.m, k=v, …), xs)`: the results in the order of xs
+                if f.attr == "map" and isinstance(f.value, ast.Name) and env.get(f.value.id, (None, None))[1] == "executor" and len(n.args) == 2 and not n.keywords \
+                        and isinstance(n.args[0], ast.Call) and getattr(n.args[0].func, "id", None) == "partial" and len(n.args[0].args) == 1:
+                    pc = n.args[0]
+                    xs, xty = self.E(n.args[1], env)
+                    if not (isinstance(xty, tuple) and xty[0] == "list"):
+                        self.err(n, f"executor.map over a {xty}")
+                    self.fresh += 1
+                    x = f"x{self.fresh}"
+                    inner = ast.Call(func=pc.args[0], args=[ast.Name(id=x, ctx=ast.Load())], keywords=pc.keywords)
+                    ast.copy_location(inner, n)
+                    ast.fix_missing_locations(inner)
+                    env2 = dict(env)
+                    env2[x] = (x, xty[1])
+                    self.in_lambda += 1
+                    try:
+                        body, bty = self.call(inner, env2)
+                    finally:
+                        self.in_lambda -= 1
+                    # the value is a ONE-SHOT iterator over the results: it may be consumed once (one `for`, one `list(...)`), see `use_iter`
+                    if "(← " in body:
+                        self.need_eff(n)
+                        return f"(← {atom(xs)}.mapM (fun {x} => do return {body}))", ("iter", bty)
+                    return f"({atom(xs)}.map (fun {x} => {body}))", ("iter", bty)
+                # `optimizer.optimize(task, mode=str(mode), workers=self._n_workers)`
+                if f.attr == "optimize" and len(n.args) == 1 and sorted(kw.arg for kw in n.keywords) == ["mode", "workers"]:
+                    rt, rty = self.E(f.value, env)
+                    tt, tty = self.E(n.args[0], env)
+                    kws = {kw.arg: kw.value for kw in n.keywords}
+                    mt, mty = self.E(kws["mode"], env)
+                    wt, wty = self.E(kws["workers"], env)
+                    if (rty, tty, mty, wty) != ("mobj", "mobj", "str", O("int")):
+                        self.err(n, f"optimize of a {rty} on a {tty} with mode {mty} and workers {wty}")
+                    ctx = self.spec.get("optimize_ctx")
+                    if ctx != ["id_trial"] or "id_trial" not in env:
+                        self.err(n, "optimize() outside the per-trial worker function")
+                    return f"(optimize {atom(rt)} {atom(tt)} {atom(mt)} {atom(wt)} id_trial)", "rho"
             if ast.unparse(f) == "chain.from_iterable" and len(n.args) == 1 and not n.keywords:
                 t, ty = self.E(n.args[0], env)
                 if isinstance(ty, tuple) and ty[0] == "list" and isinstance(ty[1], tuple) and ty[1][0] == "list":
@@ -1146,6 +1248,10 @@ class Fn:
     def implicit_args(self, cs, node, env=None):
         # in the order of the callee's header: arithmetic, opaque functions, constants, pool schedule, receiver, extras, random stream, then the instance attributes
         out = []
+        if cs.get("rho"):
+            if not self.spec.get("rho"):
+                self.err(node, "callee runs optimizers, the caller is not declared to")
+            out.append("optimize")
         if cs.get("R"):
             out.append("ar")
         for _, (pname, _, _) in cs.get("opaque", {}).items():
@@ -1282,7 +1388,11 @@ class Fn:
                 env2 = dict(env)
                 pat = self.bind_target(s.target, ity[1], env2)
                 self.lines.append(f"{pad}for {pat} in {it} do")
-                self.S(s.body, env2, ind + 1)
+                self.loop_depth = getattr(self, "loop_depth", 0) + 1
+                try:
+                    self.S(s.body, env2, ind + 1)
+                finally:
+                    self.loop_depth -= 1
                 continue
             if isinstance(s, ast.With):
                 # `with get_pool_executor(mode, workers) as executor:` — the pool is a scheduling device: body only
@@ -1290,6 +1400,15 @@ class Fn:
                         and isinstance(s.items[0].optional_vars, ast.Name):
                     for a in s.items[0].context_expr.args:
                         self.E(a, env)       # the arguments must at least be well-formed reads
+                    env[s.items[0].optional_vars.id] = ("executor", "executor")
+                    if self.S(s.body, env, ind):
+                        return True
+                    continue
+                if self.spec.get("rho") and len(s.items) == 1 and ast.unparse(s.items[0].context_expr.func if isinstance(s.items[0].context_expr, ast.Call) else s.items[0].context_expr) == "parallel.ProcessPoolExecutor" \
+                        and isinstance(s.items[0].optional_vars, ast.Name) and len(s.items[0].context_expr.args) == 1 and not s.items[0].context_expr.keywords:
+                    _, pty = self.E(s.items[0].context_expr.args[0], env)
+                    if pty != "poolsize":
+                        self.err(s, f"pool of size {pty}")
                     env[s.items[0].optional_vars.id] = ("executor", "executor")
                     if self.S(s.body, env, ind):
                         return True
@@ -1518,6 +1637,9 @@ class Fn:
         t, ty = self.E(v, env)
         if t == "()":
             return
+        if ty == "unit":
+            self.lines.append(f"{pad}let _ := {t}")
+            return
         self.err(v, "expression statement with an unmodelled effect")
 
     def while_true(self, s, env, ind):
@@ -1714,6 +1836,10 @@ class Fn:
         header = []
         if sp.get("poly"):
             header.append("{α : Type}")
+        if sp.get("rho"):
+            # the result of `optimizer.optimize(task, mode=…, workers=…)` made in the worker process of a given trial: an opaque function of the two objects,
+            # the mode string, the workers argument and the trial whose process makes the call
+            header.append("{ρ : Type} (optimize : Multi.Obj → Multi.Obj → String → Option Int → Int → ρ)")
         if sp.get("selfrec"):
             header.append("{R σ τ : Type} (ar : Arith R) (H : Hooks R σ τ)")
         elif sp.get("R"):
